@@ -72,17 +72,17 @@ theorem upd_eq_self {β : Type} (f : Nat → β) (a : Nat) (y : β) (h : f a = y
 
 theorem mstep_journal (db : DB) (op : MOp) :
     (mstepCore db op).journal = db.journal ∨ ∃ e, (mstepCore db op).journal = e :: db.journal := by
-  cases op <;> simp only [mstepCore] <;> (try split) <;> (try split) <;> simp [DB.push, DB.setObj]
+  cases op <;> simp only [mstepCore] <;> (try split) <;> (try split) <;> simp [DB.push_def, DB.setObj]
 
 theorem mstep_keeper (db : DB) (op : MOp) : (mstepCore db op).k = db.k ∧ (mstepCore db op).revisions = db.revisions ∧
     (mstepCore db op).nextRev = db.nextRev := by
-  cases op <;> simp only [mstepCore] <;> (try split) <;> (try split) <;> simp [DB.push, DB.setObj]
+  cases op <;> simp only [mstepCore] <;> (try split) <;> (try split) <;> simp [DB.push_def, DB.setObj]
 
 theorem mstep_objs_none (db : DB) (op : MOp) (a : Nat) (h : (mstepCore db op).objs a = none) : db.objs a = none := by
   cases op <;> simp only [mstepCore] at h <;> (try split at h) <;> (try split at h) <;>
     first
     | exact h
-    | (simp only [DB.push, DB.setObj, upd] at h
+    | (simp only [DB.push_def, DB.setObj, upd] at h
        first
        | exact h
        | (split at h
@@ -112,7 +112,7 @@ theorem revert_top (d : DB) (e : Entry) (es : List Entry) (h : d.journal = e :: 
 
 theorem undo_journal (d : DB) (e : Entry) (j : List Entry) :
     undoTop { d with journal := j } e = { undoTop d e with journal := j } := by
-  cases e <;> simp only [undoTop, undo, DB.get, DB.setObj, Entry.dirtied] <;> (try split) <;> rfl
+  cases e <;> simp only [undoTop_def, undo, DB.get, DB.setObj, Entry.dirtied] <;> (try split) <;> rfl
 
 theorem revertEntries_journal_irrel (es : List Entry) : ∀ (d : DB) (j : List Entry) (n : Nat),
     revertEntries { d with journal := j } es n = revertEntries d es n := by
@@ -136,21 +136,21 @@ theorem revert_one (db : DB) (op : MOp) (h : Sat db) :
     | some o => exact revert_noop db
     | none =>
       rw [revert_top _ (.create a) db.journal rfl]
-      simp [undoTop, undo, DB.push, DB.setObj, Entry.dirtied, upd_eq_self _ _ _ ho]
+      simp [undoTop_def, undo, DB.push_def, DB.setObj, Entry.dirtied, upd_eq_self _ _ _ ho]
   | setBal a v =>
     simp only [mstepCore, hg]
     cases ho : db.objs a with
     | none => exact revert_noop db
     | some o =>
       rw [revert_top _ (.balance a o.bal) db.journal rfl]
-      simp [undoTop, undo, DB.push, DB.setObj, Entry.dirtied, DB.get, upd_eq_self _ _ _ ho]
+      simp [undoTop_def, undo, DB.push_def, DB.setObj, Entry.dirtied, DB.get, upd_eq_self _ _ _ ho]
   | setNonce a v =>
     simp only [mstepCore, hg]
     cases ho : db.objs a with
     | none => exact revert_noop db
     | some o =>
       rw [revert_top _ (.nonce a o.nonce) db.journal rfl]
-      simp [undoTop, undo, DB.push, DB.setObj, Entry.dirtied, DB.get, upd_eq_self _ _ _ ho]
+      simp [undoTop_def, undo, DB.push_def, DB.setObj, Entry.dirtied, DB.get, upd_eq_self _ _ _ ho]
   | setState a k v =>
     simp only [mstepCore, hg]
     cases ho : db.objs a with
@@ -161,22 +161,22 @@ theorem revert_one (db : DB) (op : MOp) (h : Sat db) :
       · simp only [hv, if_true]; exact revert_noop db
       · simp only [hv, if_false]
         rw [revert_top _ (.storage a k (o.stor k)) db.journal rfl]
-        simp [undoTop, undo, DB.push, DB.setObj, Entry.dirtied, DB.get, upd_eq_self _ _ _ ho]
+        simp [undoTop_def, undo, DB.push_def, DB.setObj, Entry.dirtied, DB.get, upd_eq_self _ _ _ ho]
   | setRefund v =>
     simp only [mstepCore]
     rw [revert_top _ (.refund db.refund) db.journal rfl]
-    simp [undoTop, undo, DB.push, Entry.dirtied]
+    simp [undoTop_def, undo, DB.push_def, Entry.dirtied]
   | addLog =>
     simp only [mstepCore]
     rw [revert_top _ .log db.journal rfl]
-    simp [undoTop, undo, DB.push, Entry.dirtied]
+    simp [undoTop_def, undo, DB.push_def, Entry.dirtied]
   | suicide a =>
     simp only [mstepCore, hg]
     cases ho : db.objs a with
     | none => exact revert_noop db
     | some o =>
       rw [revert_top _ (.suicide a o.suicided o.bal) db.journal rfl]
-      simp [undoTop, undo, DB.push, DB.setObj, Entry.dirtied, DB.get, upd_eq_self _ _ _ ho]
+      simp [undoTop_def, undo, DB.push_def, DB.setObj, Entry.dirtied, DB.get, upd_eq_self _ _ _ ho]
   | accAddr a =>
     simp only [mstepCore]
     by_cases hc : db.accA a = true
@@ -184,16 +184,16 @@ theorem revert_one (db : DB) (op : MOp) (h : Sat db) :
     · simp only [hc, Bool.false_eq_true, if_false]
       rw [revert_top _ (.accAddr a) db.journal rfl]
       have hc' : db.accA a = false := by simpa using hc
-      simp [undoTop, undo, DB.push, Entry.dirtied, upd_eq_self _ _ _ hc']
+      simp [undoTop_def, undo, DB.push_def, Entry.dirtied, upd_eq_self _ _ _ hc']
   | createAccount a =>
     simp only [mstepCore, hg]
     cases ho : db.objs a with
     | none =>
       rw [revert_top _ (.create a) db.journal rfl]
-      simp [undoTop, undo, DB.push, DB.setObj, Entry.dirtied, upd_eq_self _ _ _ ho]
+      simp [undoTop_def, undo, DB.push_def, DB.setObj, Entry.dirtied, upd_eq_self _ _ _ ho]
     | some o =>
       rw [revert_top _ (.reset a o) db.journal rfl]
-      simp [undoTop, undo, DB.push, DB.setObj, Entry.dirtied, upd_eq_self _ _ _ ho]
+      simp [undoTop_def, undo, DB.push_def, DB.setObj, Entry.dirtied, upd_eq_self _ _ _ ho]
   | accSlot a k =>
     simp only [mstepCore]
     by_cases hc : db.accS a k = true
@@ -201,7 +201,7 @@ theorem revert_one (db : DB) (op : MOp) (h : Sat db) :
     · simp only [hc, Bool.false_eq_true, if_false]
       rw [revert_top _ (.accSlot a k) db.journal rfl]
       have hc' : db.accS a k = false := by simpa using hc
-      simp [undoTop, undo, DB.push, Entry.dirtied, upd_eq_self _ _ _ hc']
+      simp [undoTop_def, undo, DB.push_def, Entry.dirtied, upd_eq_self _ _ _ hc']
 
 theorem revertEntries_journal (es : List Entry) : ∀ (db : DB) (n : Nat),
     (revertEntries db es n).journal.length ≤ es.length := by
@@ -282,7 +282,7 @@ theorem revertEntries_keeps (es : List Entry) : ∀ (db : DB) (n : Nat),
     · simp
     · obtain ⟨a, b⟩ := ih (undoTop db e) n
       rw [a, b]
-      cases e <;> simp only [undoTop, undo] <;> (try split) <;> simp [DB.setObj]
+      cases e <;> simp only [undoTop_def, undo] <;> (try split) <;> simp [DB.setObj]
 
 /-- **Snapshot / RevertToSnapshot**: a frame that takes a snapshot, performs any EVM-side mutations and
     reverts to the snapshot leaves the StateDB as it was (only the revision counter has advanced) -/
@@ -357,7 +357,7 @@ def sstep (db : DB) : SOp → DB
 
 theorem undoTop_rev (d : DB) (e : Entry) (R : List (Nat × Nat)) (n : Nat) :
     undoTop { d with revisions := R, nextRev := n } e = { undoTop d e with revisions := R, nextRev := n } := by
-  cases e <;> simp only [undoTop, undo, DB.get, DB.setObj, Entry.dirtied] <;> (try split) <;> rfl
+  cases e <;> simp only [undoTop_def, undo, DB.get, DB.setObj, Entry.dirtied] <;> (try split) <;> rfl
 
 theorem revertEntries_rev (es : List Entry) : ∀ (d : DB) (R : List (Nat × Nat)) (n k : Nat),
     revertEntries { d with revisions := R, nextRev := n } es k = { revertEntries d es k with revisions := R, nextRev := n } := by
@@ -559,8 +559,8 @@ theorem flush_then_revert_counterexample :
       let db4 := commit db3 [0, 1, 2, 3] [0, 1]                    -- end of the transaction
       db4.k.store 0 1 = 7 ∧ db4.k.bal 0 = 70 ∧ db4.k.bal 3 = 30 ∧ db3.getState 0 1 = 0
     | none => False := by
-  simp [DB.new, k0, snapshot, setState, subBalance, addBalance, ensure, mstep, mstepCore, DB.load, MOp.addr, DB.get, DB.push, DB.setObj,
-    Entry.dirtied, commit, commitOne, Keeper.setBalance, revertTo, revertJournal, revertEntries, undoTop, undo, upd,
+  simp [DB.new, k0, snapshot, setState, subBalance, addBalance, ensure, mstep, mstepCore, DB.load, MOp.addr, DB.get, DB.push_def, DB.setObj,
+    Entry.dirtied, commit, commitOne, writeSlot, flushObj, Keeper.setBalance, revertTo, revertJournal, revertEntries, undoTop_def, undo, upd,
     DB.getState]
 
 /-- non-vacuity of `revert_restores`: a saturated DB and a mixed op sequence -/
